@@ -70,11 +70,11 @@ def space_of(ex, st, v):
         if step == 1:
             lt, ht = to_int_term(lo), to_int_term(hi)
             n = z3.simplify(z3.If(ht > lt, ht - lt, 0))
-            return Space(n=n, elem=lambda k: concretize(SInt(lt + k)))
+            return Space(n=n, elem=lambda k: concretize(SInt(lt + k)), span=(None, lambda k: lt + k))
         if step == -1:
             lt, ht = to_int_term(lo), to_int_term(hi)
             n = z3.simplify(z3.If(lt > ht, lt - ht, 0))
-            return Space(n=n, elem=lambda k: concretize(SInt(lt - k)))
+            return Space(n=n, elem=lambda k: concretize(SInt(lt - k)), span=(None, lambda k: lt - k))
         raise Unsupported("range step")
     if isinstance(v, Ref):
         p = st.heap[v.oid]
@@ -340,8 +340,15 @@ class SumSym:
 
 
 def find_or_make_sum(ex, st, body, lo, hi):
-    """Sigma symbols are shared between code and specification when their bodies are provably
-    equal on [lo, hi) under the current path condition (extensionality)."""
+    """Returns the z3 term for sum_{lo <= k < hi} body(k).
+
+    Sigma symbols are shared between code and specification when their bodies are provably
+    equal under the current path condition (extensionality, checked by the solver), also up to
+    a shift or a reflection of the summation index (sum_{k} f(k) = sum_{k} f(k - d) shifted,
+    = sum_{k} f(c - k) reflected)."""
+    from .solve import check, free_symbols
+    from .state import Obligation
+
     ctx = ex.ctx
     if not hasattr(ctx, "sums"):
         ctx.sums = []
@@ -350,21 +357,44 @@ def find_or_make_sum(ex, st, body, lo, hi):
     for ss in ctx.sums:
         rj = z3.simplify(ss.body(j))
         if bj.eq(rj):
-            return ss
-    for ss in ctx.sums:
-        rj = ss.body(j)
-        s = z3.Solver()
-        s.set("timeout", 1000)
-        for c in st.pc:
-            s.add(c)
-        for qa in st.qassumes:
-            s.add(zbool(qa.fn(j)))
-        s.add(lo <= j, j < hi, bj != rj)
-        if s.check() == z3.unsat:
-            return ss
+            return ss.fn(lo, hi)
+    # inside grounding (lazy instantiation of a quantified hypothesis) only the syntactic match is
+    # used: a semantic match would re-enter the grounding of the same hypotheses
+    if not getattr(ctx, "_grounding", 0):
+        fa = free_symbols(bj) - {j.decl().name()}
+        for ss in ctx.sums:
+            fb = free_symbols(ss.body(j)) - {j.decl().name()}
+            if not (fa & fb) and (fa or fb):
+                continue
+            same_len = (hi - lo) == (ss.hi - ss.lo)
+            d = z3.simplify(lo - ss.lo)
+            c = z3.simplify(lo + ss.hi - 1)
+            for how, other in (("same", ss.body(j)) if z3.is_int_value(d) and d.as_long() == 0 else ("shift", ss.body(z3.simplify(j - d))),
+                               ("reflect", ss.body(z3.simplify(c - j)))):
+                goal = z3.And(same_len, z3.Implies(z3.And(lo <= j, j < hi), bj == other))
+                ob = Obligation(id="sigma-match", kind="lemma", func=ctx.func, label="sigma-extensionality", pc=list(st.pc),
+                                goal=goal, qassumes=list(st.qassumes), sums=[("term", j)])
+                r = check(ob, ctx, timeout_ms=500, want_model=False, use_cvc5=False, wall_ms=3000)
+                if r["status"] == "unsat":
+                    ctx.sigma_matches = getattr(ctx, "sigma_matches", 0) + 1
+                    if how == "same":
+                        return ss.fn(lo, hi)
+                    return ss.fn(ss.lo, ss.hi)
     ss = SumSym(fresh_name("Sigma"), body)
+    ss.lo, ss.hi = lo, hi
     ctx.sums.append(ss)
-    return ss
+    if not getattr(ctx, "_grounding", 0):
+        # E2 rule: a sum of positive (non-negative) terms over a non-empty range is positive (non-negative)
+        for attr, rel in (("positive", bj > 0), ("nonneg", bj >= 0)):
+            ob = Obligation(id="sigma-sign", kind="lemma", func=ctx.func, label="sigma-sign", pc=list(st.pc),
+                            goal=z3.Implies(z3.And(lo <= j, j < hi), rel), qassumes=list(st.qassumes), sums=[("term", j)])
+            r = check(ob, ctx, timeout_ms=500, want_model=False, use_cvc5=False, wall_ms=3000)
+            if r["status"] == "unsat":
+                setattr(ss, attr, True)
+                if attr == "positive":
+                    ss.nonneg = True
+                break
+    return ss.fn(lo, hi)
 
 
 def reduce_sum(ex, st, sp, node):
@@ -405,9 +435,7 @@ def reduce_sum(ex, st, sp, node):
         elif z3.is_int_value(d1) and d1.as_long() == -1:
             lo, hi = z3.simplify(d0 - sp.n + 1), z3.simplify(d0 + 1)
             body = lambda j, rel=rel, d0=d0: rel(z3.simplify(d0 - j))
-    ss = find_or_make_sum(ex, st, body, lo, hi)
-    t = ss.fn(lo, hi)
-    st.inst_terms.append(("sum", ss, lo, hi))
+    t = find_or_make_sum(ex, st, body, lo, hi)
     isf = z3.Bool(fresh_name("sum.isf"))
     return SNum(t, isf)
 
